@@ -138,6 +138,7 @@ func cmdRun(args []string) int {
 	workers := fs.Int("workers", 16, "workers")
 	pathLimit := fs.Int("pathlimit", 0, "override path limit")
 	obTimeout := fs.Int("obtimeout", 0, "seconds per obligation (0 = tier default)")
+	budget := fs.Int("budget", 0, "seconds for the whole run: obligations not started by then are reported inconclusive (0 = none)")
 	fs.Parse(args)
 
 	loadKnownFindings(*kf)
@@ -226,7 +227,14 @@ func cmdRun(args []string) int {
 	res.Bounds = map[string]interface{}{"unwind": cfg.Unwind, "enum_bound_N": cfg.EnumBound, "slice_bound": cfg.SliceBound,
 		"map_perm": cfg.MaxMapPerm, "path_limit": cfg.PathLimit, "query_ms": cfg.QueryMs, "ints": "64-bit wrapping, exact", "big": "unbounded (|x| <= 2^100 assumed for stored amounts)"}
 	caseN := 0
+	runStart := time.Now()
 	for _, ob := range obs {
+		if *budget > 0 && time.Since(runStart) > time.Duration(*budget)*time.Second {
+			// the run's time budget is used up: say so instead of silently skipping
+			res.Obligations = append(res.Obligations, &ObEvidence{Name: ob.Name, Status: "inconclusive:not-run(time budget of the check used up)"})
+			fmt.Fprintf(os.Stderr, "%-44s %s\n", ob.Name, "inconclusive:not-run(budget)")
+			continue
+		}
 		r := eng.explore(ob)
 		oe := &ObEvidence{Name: r.Name, Paths: r.Paths, PathsOK: r.PathsOK, PathsPanic: r.PathsPanic, Aborts: r.Aborts, AbortSample: r.AbortSample,
 			Covers: r.Covers, Forks: r.Forks, SymPaths: r.SymPaths, WallS: r.WallS, PCSamples: r.Samples}
